@@ -190,6 +190,9 @@ func ParseResultField(packet *Packet, mariaDBExtendedTypeInfo bool) (*ColumnDesc
 	//       int<1> data type: 0x00:type, 0x01: format
 	//       string<lenenc> value
 	if mariaDBExtendedTypeInfo {
+		if pos >= len(packet.data) {
+			return nil, base.ErrMalformPacket
+		}
 		if packet.data[pos] == 0 {
 			// skip length byte
 			pos++
@@ -199,10 +202,20 @@ func ParseResultField(packet *Packet, mariaDBExtendedTypeInfo bool) (*ColumnDesc
 				return nil, err
 			}
 			// currently we dont need to take a look on extended info, so just grab it as is
+			// the declared length comes from the wire: compare as uint64 before the conversion to int
+			if num >= uint64(len(packet.data)-pos) {
+				return nil, base.ErrMalformPacket
+			}
 			offset := int(num + 1)
 			field.ExtendedTypeInfo = packet.data[pos : pos+offset]
 			pos += offset
 		}
+	}
+
+	// the fixed-length fields indexed below: 0x0C marker, charset (2), column length (4), type (1), flags (2),
+	// decimals (1). A column definition cut before them was indexed out of range.
+	if len(packet.data)-pos < 11 {
+		return nil, base.ErrMalformPacket
 	}
 
 	//skip 0x0C constant field
@@ -246,7 +259,8 @@ func ParseResultField(packet *Packet, mariaDBExtendedTypeInfo bool) (*ColumnDesc
 		}
 		pos += n
 
-		if pos+int(field.DefaultValueLength) > len(packet.data) {
+		// uint64 comparison: int(DefaultValueLength) is negative for values >= 2^63 and passed the check on the sum
+		if field.DefaultValueLength > uint64(len(packet.data)-pos) {
 			log.WithField(logging.FieldKeyEventCode, logging.EventCodeErrorProtocolProcessing).Errorln("Incorrect position, malformed packet")
 			err = base.ErrMalformPacket
 			return nil, err
